@@ -22,6 +22,9 @@ type Term struct {
 	Site   ssa.Instruction
 	// Embedded: addr term of an embedded (anonymous) struct field
 	Embedded bool
+	// Clock: for a pure call evaluated on a path, the number of events that
+	// preceded the evaluation (orders a read against later effects; not part of the key)
+	Clock int
 }
 
 func (t *Term) Key() string {
